@@ -27,6 +27,7 @@ if TYPE_CHECKING:
     from exabgp.bgp.message.open.capability.negotiated import Negotiated
 
 from exabgp.bgp.message.notification import Notify
+from exabgp.util import peertext
 from exabgp.bgp.message.update.attribute.attribute import Attribute
 from exabgp.util import hexstring
 from exabgp.util.types import Buffer
@@ -342,7 +343,10 @@ class BaseLS:
         return f'"{self.JSON}": {json.dumps(jsonable(self.content))}'
 
     def __repr__(self) -> str:
-        return '{}: {}'.format(self.REPR, self.content)
+        # a name the peer chose (node name, link name, ...) is one token: `x large-community 1:2:3` as a node name was
+        # rendered like node name x followed by a LARGE_COMMUNITY attribute
+        content = peertext(self.content, bare=True) if isinstance(self.content, str) else self.content
+        return '{}: {}'.format(self.REPR, content)
 
     @classmethod
     def check_length(cls, data: Buffer, length: int) -> None:
